@@ -257,5 +257,21 @@ theorem inv_step (s : St) (h : Inv s) (op : Op) : Inv (step s op).1 := by
     split
     · exact h
     · split <;> exact h
+  | putConfig m hdr body =>
+    simp only [step]; repeat' split
+    all_goals exact h
+  | tso m hdrs =>
+    simp only [step]; split <;> exact h
+
+/-- the requests that only ask (IsBootstrapped, PutClusterConfig, Tso) leave the state alone -/
+theorem step_readonly (s : St) (op : Op)
+    (h : (∃ m hdr, op = .isBoot m hdr) ∨ (∃ m hdr b, op = .putConfig m hdr b) ∨ (∃ m hs, op = .tso m hs)) :
+    (step s op).1 = s := by
+  rcases h with ⟨m, hdr, rfl⟩ | ⟨m, hdr, b, rfl⟩ | ⟨m, hs, rfl⟩
+  · simp only [step]; repeat' split
+    all_goals rfl
+  · simp only [step]; repeat' split
+    all_goals rfl
+  · simp only [step]; split <;> rfl
 
 end PdModel.Bootstrap
